@@ -22,7 +22,7 @@ def PidOK (s : St) : Prop := s.poolCon.isSome = true → s.poolPid = true
 def QuietFrom (cf : Cfg) (n : Nat) : Prop := ∀ i, n ≤ i → cf.fails i = false
 
 theorem idle_inv {cf : Cfg} {q p : Bool} {s : St} (h : Idle s) (hq : q = true → QuietFrom cf s.n ∧ PidOK s)
-    (hp : p = true → s.poolPid = true) : Inv cf q p s := by
+    (hp : p = true → PidOK s ∧ (cf.initGuard = false → s.poolPid = true)) : Inv cf q p s := by
   obtain ⟨hA, hb, hpre, hl, hls, hh, hc, hin, hd⟩ := h
   refine ⟨⟨hA, ⟨hb, hpre, by simpa [hl, phaseOfLock] using hls⟩, ⟨fun h => ⟨(hq h).1, (hq h).2⟩, hp⟩⟩, ?_⟩
   simp_all [CInv]
@@ -73,12 +73,12 @@ theorem C19_connection_released_or_closed_once (cf : Cfg) (hwf : cf.WF) (prog : 
   · exact .inr ⟨hp, h2 k hk hp⟩
 
 /-- the five named shapes of the quantifier are instances (read-only, optimistic write, immediate, serializable, ddl) -/
-example (fails : Nat → Bool) (s : St) (h : Idle s) :
-    Idle (dbSession ⟨fails, false, false, false⟩ [(.query, false)] false s).2 ∧
-    Idle (dbSession ⟨fails, false, false, false⟩ [(.modify [false], false)] false s).2 ∧
-    Idle (dbSession ⟨fails, true, false, false⟩ [(.query, false), (.modify [false], false)] false s).2 ∧
-    Idle (dbSession ⟨fails, true, false, false⟩ [(.query, false), (.modify [false], false)] true s).2 ∧
-    Idle (dbSession ⟨fails, true, true, false⟩ [(.write false, false)] false s).2 :=
+example (fails : Nat → Bool) (g : Bool) (s : St) (h : Idle s) :
+    Idle (dbSession ⟨fails, false, false, false, g⟩ [(.query, false)] false s).2 ∧
+    Idle (dbSession ⟨fails, false, false, false, g⟩ [(.modify [false], false)] false s).2 ∧
+    Idle (dbSession ⟨fails, true, false, false, g⟩ [(.query, false), (.modify [false], false)] false s).2 ∧
+    Idle (dbSession ⟨fails, true, false, false, g⟩ [(.query, false), (.modify [false], false)] true s).2 ∧
+    Idle (dbSession ⟨fails, true, true, false, g⟩ [(.write false, false)] false s).2 :=
   ⟨C19_session_end _ (by simp [Cfg.WF]) _ _ s h, C19_session_end _ (by simp [Cfg.WF]) _ _ s h,
    C19_session_end _ (by simp [Cfg.WF]) _ _ s h, C19_session_end _ (by simp [Cfg.WF]) _ _ s h,
    C19_session_end _ (by simp [Cfg.WF]) _ _ s h⟩
@@ -111,9 +111,11 @@ theorem C19_quiet_session_succeeds (cf : Cfg) (hwf : cf.WF) (prog : List (Op × 
   · exact ⟨trivial, inv_idle this.1 this.2, (this.1.1.2.2.1 rfl).2⟩
   · simp at this
 
-/-- the full statement "later sessions never fail because of an earlier session" -/
-def C19_later_sessions_unaffected_full : Prop :=
-  ∀ (cf cf2 : Cfg) (prog prog2 : List (Op × Bool)) (br : Bool) (s : St), cf.WF → cf2.WF → Idle s → PidOK s →
+/-- the full statement "later sessions never fail because of an earlier session", for the tree whose
+    `SQLitePool._connect` is the variant `g` (false: as released; true: with fixes/C19-sqlitepool-connect-init.diff) -/
+def C19_later_sessions_unaffected_full (g : Bool) : Prop :=
+  ∀ (cf cf2 : Cfg) (prog prog2 : List (Op × Bool)) (br : Bool) (s : St), cf.initGuard = g → cf2.initGuard = g →
+    cf.WF → cf2.WF → Idle s → PidOK s →
     QuietFrom cf2 (dbSession cf prog br s).2.n → (dbSession cf2 prog2 false (dbSession cf prog br s).2).1 = .ok ()
 
 /-- a thread whose pool is half-initialised (`pool.con` assigned by a `_connect` that then failed, `pool.pid` never
@@ -126,31 +128,39 @@ theorem C19_half_initialised_pool_poisons (cf : Cfg) (s : St) (k : Nat) (hh : s.
     exitSession, coreRollback, cacheClose, wrap, PonyVerif.Model.ConnLock.tryCatch, bind, bindM, getS, modS, assertM,
     raise, pure, ret, hh, hpc, hpid]
 
-/-- … is FALSE for the code as written: in a thread that has never connected, let the first PRAGMA of
+/-- … is FALSE for the code as released: in a thread that has never connected, let the first PRAGMA of
     `SQLitePool._connect` fail (call index 1).  `pool.con` is already assigned, `pool.pid` does not exist, and every later
     session of the thread fails although no DB-API call fails any more. -/
-theorem C19_later_sessions_unaffected_full_false : ¬ C19_later_sessions_unaffected_full := by
+theorem C19_later_sessions_unaffected_full_false : ¬ C19_later_sessions_unaffected_full false := by
   intro h
-  have hs : (dbSession ⟨fun i => i == 1, false, false, false⟩ [(.query, false)] false St.init).2.poolPid = false ∧
-      (dbSession ⟨fun i => i == 1, false, false, false⟩ [(.query, false)] false St.init).2.poolCon = some 0 ∧
-      (dbSession ⟨fun i => i == 1, false, false, false⟩ [(.query, false)] false St.init).2.hasCache = false := by decide
-  have := h ⟨fun i => i == 1, false, false, false⟩ ⟨fun _ => false, false, false, false⟩ [(.query, false)] [(.query, false)]
-    false St.init (by simp [Cfg.WF]) (by simp [Cfg.WF]) (by simp [Idle, St.init, AccF, lockState]) (by simp [PidOK, St.init])
+  have hs : (dbSession ⟨fun i => i == 1, false, false, false, false⟩ [(.query, false)] false St.init).2.poolPid = false ∧
+      (dbSession ⟨fun i => i == 1, false, false, false, false⟩ [(.query, false)] false St.init).2.poolCon = some 0 ∧
+      (dbSession ⟨fun i => i == 1, false, false, false, false⟩ [(.query, false)] false St.init).2.hasCache = false := by decide
+  have := h ⟨fun i => i == 1, false, false, false, false⟩ ⟨fun _ => false, false, false, false, false⟩ [(.query, false)] [(.query, false)]
+    false St.init rfl rfl (by simp [Cfg.WF]) (by simp [Cfg.WF]) (by simp [Idle, St.init, AccF, lockState]) (by simp [PidOK, St.init])
     (by intro i _; rfl)
   rw [C19_half_initialised_pool_poisons _ _ 0 hs.2.2 hs.2.1 hs.1] at this
   cases this
 
-/-- the same statement holds in every thread that has completed one `_connect` before (`pool.pid` exists) -/
+/-- the strongest true statement for both variants of `_connect`: if `pool.pid` exists whenever `pool.con` does and —
+    only for `_connect` as released — the thread has completed a `_connect` before, then after ANY session (any faults)
+    a session in which nothing fails succeeds, and the hypothesis holds again -/
 theorem C19_later_sessions_unaffected_partial (cf cf2 : Cfg) (prog prog2 : List (Op × Bool)) (br : Bool) (s : St)
-    (hwf : cf.WF) (hwf2 : cf2.WF) (h : Idle s) (hpid : s.poolPid = true)
+    (hwf : cf.WF) (hwf2 : cf2.WF) (h : Idle s) (hpid : PidOK s) (hguard : cf.initGuard = false → s.poolPid = true)
     (hquiet : QuietFrom cf2 (dbSession cf prog br s).2.n) :
-    (dbSession cf2 prog2 false (dbSession cf prog br s).2).1 = .ok () ∧ (dbSession cf prog br s).2.poolPid = true := by
-  have hI : Inv cf false true s := idle_inv h (by simp) (fun _ => hpid)
+    (dbSession cf2 prog2 false (dbSession cf prog br s).2).1 = .ok () ∧ PidOK (dbSession cf prog br s).2 ∧
+    (cf.initGuard = false → (dbSession cf prog br s).2.poolPid = true) := by
+  have hI : Inv cf false true s := idle_inv h (by simp) (fun _ => ⟨hpid, hguard⟩)
   have h1 := spec_dbSession cf false true hwf prog br s hI
-  have hpid' : (dbSession cf prog br s).2.poolPid = true := by
+  have hpid' : PidOK (dbSession cf prog br s).2 ∧ (cf.initGuard = false → (dbSession cf prog br s).2.poolPid = true) := by
     unfold wp at h1
     split at h1 <;> rename_i heq <;> simp only [heq] <;> exact h1.1.1.2.2.2 rfl
-  exact ⟨(C19_quiet_session_succeeds cf2 hwf2 prog2 _ (C19_session_end cf hwf prog br s h) (fun _ => hpid') hquiet).1, hpid'⟩
+  exact ⟨(C19_quiet_session_succeeds cf2 hwf2 prog2 _ (C19_session_end cf hwf prog br s h) hpid'.1 hquiet).1, hpid'⟩
+
+/-- with the guarded `_connect` the full statement holds -/
+theorem C19_later_sessions_unaffected_guarded : C19_later_sessions_unaffected_full true := by
+  intro cf cf2 prog prog2 br s hg _ hwf hwf2 h hpid hquiet
+  exact (C19_later_sessions_unaffected_partial cf cf2 prog prog2 br s hwf hwf2 h hpid (by simp [hg]) hquiet).1
 
 /-- the guard is satisfiable -/
 example : ∃ s, Idle s ∧ s.poolPid = true :=
